@@ -12,7 +12,7 @@ SPEC = dict(
          "attempt / proof / epoch tail / count, preimage unneeded / unsorted, assurance anchor / order / signature / bit / index, unknown parent), "
          "retries of refused blocks, re-imports of accepted blocks, GetState of head / old / refused / unknown hashes, repeated SetState, "
          "and closing re-reads of every recent hash. Each history runs on node A (sees everything), B1 (all refused imports deleted), B2 (random "
-         "subset deleted), A2 (same sequence again after reset) and, for a quarter, X (same sequence in a freshly exec'ed process). Compared per "
+         "subset deleted), B3 (exactly one refused import deleted), A2 (same sequence again after reset) and, for a quarter, X (same sequence in a freshly exec'ed process). Compared per "
          "operation with the extracted Coq node model (STF = table learned from run A): import result class and error kind, returned state root, "
          "digest of GetState key-values, Merkle root recomputed from those key-values. non-trivial = history with at least one accepted and one "
          "refused import; distinct by input",
@@ -22,7 +22,8 @@ SPEC = dict(
         "the two message variants of the ancestry refusal ('already finalized' / 'not part of the finalized block', chosen by a block-number "
         "index lookup) are one refusal kind; other error texts are compared as kinds (the fuzz protocol does not compare them, the check does)",
         "retention/pruning (the node keeps 24 states under JAM_FUZZ) is outside the model: hashes are queried / forked from / re-imported only "
-        "while fewer than 14 imports were accepted since their first acceptance",
+        "while fewer than 22 imports were accepted since their latest acceptance (the SetState header always): a correct 24-entry retention is "
+        "invisible, a premature deletion (C26-02) is a mismatch",
         "ring-VRF and IETF-VRF are the overlay stand-in (valid blocks are valid for the stand-in, not for Bandersnatch)",
     ],
 )
